@@ -36,10 +36,48 @@ func rulesC19(c *Ctx) {
 			for i := 0; i < pst.NumFields(); i++ {
 				if mt, isMap := pst.Field(i).Type().Underlying().(*types.Map); isMap {
 					if !strings.HasSuffix(mt.Elem().String(), "template.Template") {
-						continue // e.g. template.FuncMap: read-only configuration, not a cache
+						// e.g. template.FuncMap: read-only configuration, not a cache - unless the provider writes it
+						// after construction (bookkeeping shared by the layers): then it needs one guard like the caches
+						written := false
+						fi := i
+						for _, f := range fns {
+							eachInstr(f, func(_ *ssa.BasicBlock, _ int, in ssa.Instruction) {
+								var m ssa.Value
+								switch x := in.(type) {
+								case *ssa.MapUpdate:
+									m = x.Map
+								case *ssa.Call:
+									if b, ok := x.Call.Value.(*ssa.Builtin); ok && b.Name() == "delete" && len(x.Call.Args) > 0 {
+										m = x.Call.Args[0]
+									}
+								}
+								if u, ok := m.(*ssa.UnOp); ok {
+									if fa, ok := u.X.(*ssa.FieldAddr); ok && fa.Field == fi && structOf(fa.X.Type()) == pst && !freshBase(fa.X) {
+										written = true
+									}
+								}
+							})
+						}
+						if written {
+							guardedAccessRule(c, le, "R1", fns, T, pst.Field(i).Name(), "", nil)
+						}
+						continue
 					}
 					cacheMaps = append(cacheMaps, refFieldName(lastSeg(typeString(T)), pst.Field(i).Name()))
 					k += guardedAccessRule(c, le, "R1", fns, T, pst.Field(i).Name(), "", nil)
+				}
+				// a cache kept in a sync.Map: every access is a method call of the map (safe by its contract)
+				if pst.Field(i).Type().String() == "sync.Map" {
+					nm := refFieldName(lastSeg(typeString(T)), pst.Field(i).Name())
+					cacheMaps = append(cacheMaps, nm)
+					for _, f := range fns {
+						for _, sc := range Calls(f) {
+							if fld, _, _, _ := syncMapOp(sc.Instr); fld == nm {
+								k++
+								c.OK("R1", fmt.Sprintf("%s.%s %s in %s", short, nm, sc.Static.Name(), fname(f)), sc.Pos(), "through sync.Map (goroutine-safe by contract)")
+							}
+						}
+					}
 				}
 			}
 		}
@@ -228,6 +266,10 @@ func rulesC19(c *Ctx) {
 							}
 						}
 					}
+				case *ssa.Call:
+					if fld, op, _, v := syncMapOp(x); fld != "" && isCacheMap(fld) && (op == "Store" || op == "LoadOrStore" || op == "Swap") {
+						val, what = v, fld
+					}
 				case *ssa.Store:
 					if fa, ok := x.Addr.(*ssa.FieldAddr); ok && strings.HasSuffix(fieldName(fa), ".Provider.baseTemplate") && !freshBase(fa.X) {
 						if isNilConst(resolve(x.Val)) {
@@ -308,14 +350,22 @@ func rulesC19(c *Ctx) {
 			eachInstr(f, func(_ *ssa.BasicBlock, _ int, in ssa.Instruction) {
 				mu, ok := in.(*ssa.MapUpdate)
 				if !ok {
-					return
-				}
-				if nm, base := fieldLoadName(mu.Map); !isCacheMap(nm) || base == nil || freshBase(base) {
+					// sync.Map form: Store(key, value)
+					if fld, op, key, v := syncMapOp(in); fld != "" && isCacheMap(fld) && (op == "Store" || op == "LoadOrStore" || op == "Swap") {
+						mu = &ssa.MapUpdate{Key: key, Value: v}
+						ok = true
+					}
+				} else if nm, base := fieldLoadName(mu.Map); !isCacheMap(nm) || base == nil || freshBase(base) {
 					mp, isP := mu.Map.(*ssa.Parameter)
 					if !isP || mapParamCache(f, mp) == "" {
 						return
 					}
 				}
+				if !ok {
+					return
+				}
+				muPos := in.Pos()
+				_ = muPos
 				// the key as its builder wrote it (a parameter is followed to the call sites)
 				var keyVals []ssa.Value
 				if p, isP := resolve(mu.Key).(*ssa.Parameter); isP {
@@ -365,7 +415,7 @@ func rulesC19(c *Ctx) {
 						continue // a single name: nothing to separate
 					}
 					keysSeen++
-					c.Check(okK, "R4", short+" composite cache key", mu.Pos(), "the names in the key are separated by a constant: "+renderTemplate(parts),
+					c.Check(okK, "R4", short+" composite cache key", muPos, "the names in the key are separated by a constant: "+renderTemplate(parts),
 						"a cache key joins two names without a separator ("+renderTemplate(parts)+") — two (layout, view) pairs share one cache slot")
 				}
 			})
@@ -426,4 +476,36 @@ func sameVarOrValue(a, b ssa.Value, from, to ssa.Instruction) bool {
 		}
 	}
 	return true
+}
+
+// syncMapOp: in is a call of a sync.Map method on a struct field: returns the field's
+// (reference) name, the method, and the key/value arguments (interfaces unwrapped).
+func syncMapOp(in ssa.Instruction) (field, op string, key, val ssa.Value) {
+	call, ok := in.(*ssa.Call)
+	if !ok {
+		return
+	}
+	cal := call.Call.StaticCallee()
+	if cal == nil || !strings.HasPrefix(qualName(cal), "sync.(Map).") || len(call.Call.Args) < 1 {
+		return
+	}
+	fa, ok := call.Call.Args[0].(*ssa.FieldAddr)
+	if !ok || freshBase(fa.X) {
+		return
+	}
+	n := fieldName(fa)
+	field, op = n[strings.LastIndex(n, ".")+1:], cal.Name()
+	un := func(v ssa.Value) ssa.Value {
+		if mi, ok := v.(*ssa.MakeInterface); ok {
+			return mi.X
+		}
+		return v
+	}
+	if len(call.Call.Args) > 1 {
+		key = un(call.Call.Args[1])
+	}
+	if len(call.Call.Args) > 2 {
+		val = un(call.Call.Args[2])
+	}
+	return
 }
